@@ -345,12 +345,77 @@ fn resolution_workload_with(d: &mut Digest, reader: Reader) {
     }
 }
 
+/// a well-formed version-2 file with `ntrans` transitions, `nleaps` leap-second records and `ntypes` local time
+/// types (sizes no real file has: limits that exist in one feature configuration only show up here)
+#[cfg(feature = "alloc")]
+fn synthetic_tzif(ntrans: usize, nleaps: usize, ntypes: usize) -> alloc::vec::Vec<u8> {
+    let mut f = alloc::vec::Vec::new();
+    let header = |f: &mut alloc::vec::Vec<u8>, leap: u32, time: u32, typ: u32, chr: u32| {
+        f.extend_from_slice(b"TZif2");
+        f.extend_from_slice(&[0u8; 15]);
+        for c in [0u32, 0, leap, time, typ, chr] {
+            f.extend_from_slice(&c.to_be_bytes());
+        }
+    };
+    // 32-bit block: a stub
+    header(&mut f, 0, 0, 1, 4);
+    f.extend_from_slice(&0i32.to_be_bytes());
+    f.extend_from_slice(&[0, 0]);
+    f.extend_from_slice(b"UTC\0");
+    // 64-bit block
+    header(&mut f, nleaps as u32, ntrans as u32, ntypes as u32, 8);
+    for k in 0..ntrans {
+        f.extend_from_slice(&(-4_000_000_000i64 + 86_400 * k as i64).to_be_bytes());
+    }
+    for k in 0..ntrans {
+        f.push((k % ntypes) as u8);
+    }
+    for k in 0..ntypes {
+        f.extend_from_slice(&(-40_000i32 + 300 * k as i32).to_be_bytes());
+        f.push((k % 2) as u8);
+        f.push(if k % 3 == 0 { 0 } else { 4 });
+    }
+    f.extend_from_slice(b"AAA\0BBB\0");
+    for k in 0..nleaps {
+        f.extend_from_slice(&(100_000_000i64 + 2_500_000 * k as i64).to_be_bytes());
+        f.extend_from_slice(&(k as i32 + 1).to_be_bytes());
+    }
+    f.extend_from_slice(b"\n\n");
+    f
+}
+
+#[cfg(feature = "alloc")]
+fn size_limits_workload(d: &mut Digest) {
+    use tz::TimeZone;
+    const SHAPES: [(usize, usize, usize); 16] =
+        [(0, 0, 1), (1, 0, 2), (255, 27, 2), (256, 50, 3), (257, 51, 4), (2000, 50, 2), (2001, 0, 2), (2000, 51, 2), (4096, 100, 127), (4097, 255, 128), (65_535, 256, 255), (65_536, 300, 256), (70_000, 1000, 7), (3, 2000, 2), (100_000, 0, 200), (1, 1, 256)];
+    for (nt, nl, ny) in SHAPES {
+        let bytes = synthetic_tzif(nt, nl, ny);
+        match TimeZone::from_tz_data(&bytes) {
+            Ok(z) => {
+                let r = z.as_ref();
+                d.i(r.transitions().len() as i64);
+                d.i(r.leap_seconds().len() as i64);
+                d.i(r.local_time_types().len() as i64);
+                for t in [-5_000_000_000i64, -4_000_000_000 + 86_400 * (nt as i64 / 2), 0, 1_000_000_000] {
+                    match z.find_local_time_type(t) {
+                        Ok(l) => d.i(l.ut_offset() as i64),
+                        Err(e) => dig_err(d, &e),
+                    }
+                }
+            }
+            Err(e) => dig_err(d, &e),
+        }
+    }
+}
+
 #[cfg(feature = "alloc")]
 pub fn alloc_workload(seed: u64, n: u64, files: &[&[u8]]) -> Digest {
     use alloc::string::ToString;
     use tz::{TimeZone, TimeZoneSettings};
     let mut d = Digest::new();
     resolution_workload(&mut d);
+    size_limits_workload(&mut d);
     let mut r = Rng(seed ^ 0x55);
     let settings = TimeZoneSettings::new(&[], |_| Err("no files".into()));
     let strings = ["EST5EDT,M3.2.0,M11.1.0", "CET-1CEST,M3.5.0,M10.5.0/3", "<+0330>-3:30", "NZST-12NZDT,M9.5.0,M4.1.0/3", "EST5EDT", "garbage", "IST-1GMT0,M10.5.0,M3.5.0/1"];
